@@ -102,6 +102,9 @@ var c17Data = map[string]interface{}{
 
 var c17Now = time.Unix(1600000000, 0).UTC()
 var c17ReaskN int64
+var c17Params = map[string]interface{}{"host": "a", "min": 1.5, "re": map[string]interface{}{"regex": "^us"}, "d": map[string]interface{}{"duration": "1h"}, "unused": int64(3)}
+var c17BaseValuer = influxql.MultiValuer(influxql.MultiValuer(influxql.MapValuer{}, influxql.MapValuer{}), influxql.MapValuer{})
+var c17DeepExpr = strings.Repeat("(", 400) + "a + 1" + strings.Repeat(")", 400) + " > 2"
 
 type c17Mapper struct{}
 
@@ -291,6 +294,12 @@ var c17Ops = []c17Op{
 	}},
 	{"ParseExpr", false, func(o *c17Obj, in c17In) string {
 		var b strings.Builder
+		// (deeply nested: what a parser counts while it descends is its own)
+		if e, err := influxql.ParseExpr(c17DeepExpr); err != nil {
+			b.WriteString("err:" + err.Error() + "\n")
+		} else {
+			b.WriteString(c17Hash(e.String()) + "\n")
+		}
 		for i := 0; i < 2; i++ {
 			e, err := influxql.ParseExpr(in.exprText(i))
 			if err != nil {
@@ -368,6 +377,16 @@ var c17Ops = []c17Op{
 			fmt.Fprintf(&b, "%q/%s;", r, errStr(err))
 		}
 		return b.String()
+	}},
+	// every goroutine hands the SAME parameter map to its own parser
+	{"ParseWithParams", false, func(o *c17Obj, in c17In) string {
+		p := influxql.NewParser(strings.NewReader(`SELECT v FROM m WHERE h = $host AND v > $min AND t =~ $re AND time > now() - $d; SELECT $min FROM ` + "cpu_" + in.s()))
+		p.SetParams(c17Params)
+		q, err := p.ParseQuery()
+		if err != nil {
+			return "err:" + err.Error()
+		}
+		return c17J(project(q)) + q.String()
 	}},
 	// a parser asked again at the end of its input (the usual "call until EOF" loop) while a second parser has been
 	// created: what the first one answers does not depend on the second one's text (which differs from call to call)
@@ -473,6 +492,12 @@ var c17Ops = []c17Op{
 		}
 		s.Dimensions = append(s.Dimensions, &influxql.Dimension{Expr: &influxql.VarRef{Val: "extra_" + in.s()}})
 		return s.String() + c17J(project(s))
+	}},
+	// every goroutine derives its own valuer (its own clock) from the SAME base valuer
+	{"ReduceDerived", true, func(o *c17Obj, in c17In) string {
+		d := influxql.MultiValuer(c17BaseValuer, &influxql.NowValuer{Now: c17Now.Add(time.Duration(in.n) * time.Hour)})
+		s := o.sel.Reduce(d)
+		return s.String()
 	}},
 	{"ColumnNames", true, func(o *c17Obj, in c17In) string { return strings.Join(o.sel.ColumnNames(), "|") }},
 	{"RequiredPrivileges", true, func(o *c17Obj, in c17In) string {
